@@ -85,6 +85,18 @@ def check(tier):
     B = I.B
     prog = I.prog
     res = analyse_validate()
+    # guarantees of the generic algorithm modules (decided by C06 on their source): a delegate is only as good as its algorithm
+    from . import c06
+    from ..common import AnalysisError as _AE
+    sub = Report('C07', tier)
+    try:
+        c06.analyse(sub, tier)
+    except _AE as e:
+        rep.error('generic algorithm modules: %s' % e)
+    broken = {}
+    for f in sub.findings:
+        broken.setdefault(f.file, []).append(f)
+    algfile = {m: rel(prog.mods[m].path) for m in I.ALG_MODULES}
     for name, sp in sorted(spec.items()):
         mn = sp['module']
         if mn not in prog.mods:
@@ -243,6 +255,12 @@ def check(tier):
                 rep.check(algs_ok and covered, 'C07.checksum', file, 'validate', '%s checked by %s' % (name, to.replace('stdnum.', '')), 0,
                           'not every accepting path hands the whole number to %s (paths %d, algorithm used on all: %s, all positions covered: %s)'
                           % (to, len(use), algs_ok, covered), what='%s -> %s over all positions' % (name, to.replace('stdnum.', '')))
+                # the algorithm itself must give what the standard says (C06 decides it on the algorithm module)
+                if to in algfile:
+                    fl = broken.get(algfile[to], [])
+                    rep.check(not fl, 'C07.checksum', file, 'validate', '%s relies on %s' % (name, to.replace('stdnum.', '')), 0,
+                              'the algorithm module %s no longer computes the published scheme: %s' % (to, fl[0].detail[:160] if fl else ''),
+                              what='%s: %s as published (C06)' % (name, to.replace('stdnum.', '')))
                 if 'argument' in ck:
                     calls = [src(n.args[0]) for n in ast.walk(prog.mods[mn].funcs['validate']) if isinstance(n, ast.Call) and src(n.func).endswith('mod_97_10.validate') and n.args]
                     rep.check(calls == [ck['argument']], 'C07.checksum', file, 'validate', '%s rearrangement' % name, 0,
